@@ -73,6 +73,16 @@ def gen_arrays(ctx):
         if ctx.rng.random() < 0.5:
             m = sorted(m)
         out.append(np.array(m, dtype=dt))
+    # unsigned entries in the upper half of the range (hashes, addresses): >= 2^63 for uint64, >= 2^31 for uint32, ...
+    for dt in (np.uint64, np.uint64, np.uint32, np.uint16, np.uint8):
+        bits = np.iinfo(dt).bits; top = 2 ** bits - 1; half = 2 ** (bits - 1)
+        r = ctx.rng.randint(2, 6); c = ctx.rng.randint(1, 3)
+        pool = [top, top - 1, half, half + 1, half - 1, 0, 1]
+        m = [[ctx.rng.choice(pool) for _ in range(c)] for _ in range(r)]
+        m[ctx.rng.randrange(1, r)] = list(m[0])
+        if ctx.rng.random() < 0.5:
+            m.append([top] * c); m.append([top] * c)
+        out.append(np.array(m, dtype=dt))
     # entries at the ends of the integer type: differences of exactly 2^(bits-1) wrap, abs(min) == min
     for dt in (np.int8, np.int16, np.int32, np.int64):
         ii = np.iinfo(dt); half = 2 ** (ii.bits - 2)
